@@ -11,6 +11,21 @@ E2 = "stateless model checking: exhaustive DFS of the choice tree of RNG answers
 E3 = "explicit-state BFS over operation histories of the real object, reference-model comparison in every state"
 
 CHECKS = {
+    "C12": dict(
+        built=True,
+        category="exploration",
+        engine="E1",
+        technique=E1 + ", differential: backend='python' is the reference model of backend='rust' (and of the default) on every "
+        "ordered edge list of a small space; the PyO3 extension is rebuilt offline from rust/ of the working tree into an overlay package",
+        text="For each of the nine accelerated functions every ordered edge list of <=3 (<=4 unweighted) edges on 3 nodes and <=2 (3) "
+        "on 4 nodes, every source/target, directed and undirected, allow_forest, damping and max_iter variants: statuses equal, "
+        "distances / reachable sets / total weights / SCC partitions equal, paths and orders valid for the same graph, PageRank "
+        "scores within the contraction bound, default backend identical to rust. The extension is built with cargo --offline from "
+        "the working tree's rust/ (hash-keyed cache) and combined with symlinks to the working tree's python sources.",
+        note="Trusts: cargo/rustc offline toolchain in the image, the overlay assembly in tools/build_rust.sh. The stale .so lying in "
+        "/repo/solvor is never loaded by this check. Bound: <=4 nodes, <=4 edges.",
+        ref="2/C12",
+    ),
     "C19": dict(
         built=True,
         category="model_checking",
